@@ -25,6 +25,14 @@ Definition sig_equals (a b : sig) : sigres :=
                  end
        end.
 
+(* ---------- interface callbacks (internal/proxy/interface.go: checkInterfaceImp) ----------
+   the callback's first parameter is the *IContext; what follows is compared with the method slot by slot *)
+Definition iface_imp_check (method imp : sig) : sigres :=
+  match s_ins imp with
+  | [] => SigArgsLen
+  | _ctx :: rest => sig_equals method {| s_ins := rest; s_outs := s_outs imp |}
+  end.
+
 (* ---------- checkParams (when.go): counts of condition arguments and return values ---------- *)
 Inductive cpres := CpOk | CpReturnsNotMatch | CpArgsNotMatch.
 (* args / returns = Some n when a list of n values was given, None when not specified *)
